@@ -90,6 +90,12 @@ def _run(mod, prop_id, tier, seed, replay, work, t0):
     info = build.build(prop_id, work, getattr(mod, 'COQ_TARGETS', None), getattr(mod, 'KERNELS', []))
     broken = list(info['broken'])
 
+    chk = None
+    if tier == 'thorough' and info.get('props_ok') and not replay:
+        ok_chk, chk_axioms, chk_problems, chk_s = build.coqchk(prop_id)
+        chk = {'ok': ok_chk, 'axioms_of_all_loaded_libraries': chk_axioms, 'problems': chk_problems, 'seconds': chk_s}
+        broken.extend(chk_problems)
+
     rng = random.Random(seed)
     if replay:
         data = json.load(open(replay))
@@ -284,6 +290,8 @@ def _run(mod, prop_id, tier, seed, replay, work, t0):
         'wall_s': round(time.time() - t0, 2),
         'violations': violations,
     }
+    if chk is not None:
+        ev['coverage']['coqchk'] = chk
     if hasattr(mod, 'extra_evidence'):
         try:
             ev['coverage'].update(mod.extra_evidence())
